@@ -17,12 +17,34 @@ import (
 type chainStep struct {
 	Name  string
 	Sites []ssa.Instruction
+	Spec  string // site selector, used to look for a relocated step
 }
 
 func (c *Ctx) orderChain(rule string, fn *ssa.Function, steps []chainStep) {
 	for i, s := range steps {
-		c.check(len(s.Sites) > 0, rule, "step present: "+s.Name, fn.Pos(), fmt.Sprintf("%d call site(s) of %s in %s", len(s.Sites), s.Name, funcKey(fn)))
-		if i == 0 || len(s.Sites) == 0 || len(steps[i-1].Sites) == 0 {
+		if len(s.Sites) == 0 {
+			// relocated into a helper (behaviour may be unchanged: the rule needs
+			// re-anchoring) or really gone (the phase is never run)?
+			moved := ""
+			if s.Spec != "" {
+				for _, g := range c.Funcs {
+					if g == fn || topFunc(g).Pkg != topFunc(fn).Pkg {
+						continue
+					}
+					if len(c.sitesIn(g, s.Spec)) > 0 {
+						moved = funcKey(g)
+					}
+				}
+			}
+			if moved != "" {
+				c.undecided(fmt.Sprintf("%s: phase %s is no longer called from %s but from %s: the ordering rule must be re-anchored", rule, s.Name, funcKey(fn), moved))
+			} else {
+				c.fail(rule, "step present: "+s.Name, fn.Pos(), fmt.Sprintf("no call site of %s in %s or anywhere else in the package: the phase never runs", s.Name, funcKey(fn)))
+			}
+			continue
+		}
+		c.ok(rule, "step present: "+s.Name, fn.Pos(), fmt.Sprintf("%d call site(s) of %s in %s", len(s.Sites), s.Name, funcKey(fn)))
+		if i == 0 || len(steps[i-1].Sites) == 0 {
 			continue
 		}
 		prev := steps[i-1]
@@ -77,18 +99,18 @@ func (c *Ctx) rulesC05(a *coreAnchors) {
 	c.rule("C05.veto", "handle() forwards a negotiation handler's Canceled (non-final) and processHandlers returns Canceled when a non-final handler returned false; every emit*Events returns the cancel unless the partial-auto branch (IsAuto && State.Auto) applies")
 	f := a.emitEvents
 	steps := []chainStep{
-		{"TransitionStart", asInstrs(c.sitesIn(f, "iface:Tracer.TransitionStart"))},
-		{"emitExitEvents", asInstrs(c.sitesIn(f, pm+":Transition.emitExitEvents"))},
-		{"emitEnterEvents", asInstrs(c.sitesIn(f, pm+":Transition.emitEnterEvents"))},
-		{"emitSelfEvents", asInstrs(c.sitesIn(f, pm+":Transition.emitSelfEvents"))},
-		{"emitStateStateEvents", asInstrs(c.sitesIn(f, pm+":Transition.emitStateStateEvents"))},
-		{"AnyEnter", c.emitHandlerSites(f, false)},
-		{"setActiveStates", asInstrs(c.sitesIn(f, funcKey(a.setActive)))},
-		{"ProcessStateCtx", asInstrs(c.sitesIn(f, pm+":Subscriptions.ProcessStateCtx"))},
-		{"TransitionFinals", asInstrs(c.sitesIn(f, "iface:Tracer.TransitionFinals"))},
-		{"emitFinalEvents", asInstrs(c.sitesIn(f, funcKey(a.emitFinal)))},
-		{"AnyState", c.emitHandlerSites(f, true)},
-		{"TransitionEnd", asInstrs(c.sitesIn(f, "iface:Tracer.TransitionEnd"))},
+		{"TransitionStart", asInstrs(c.sitesIn(f, "iface:Tracer.TransitionStart")), "iface:Tracer.TransitionStart"},
+		{"emitExitEvents", asInstrs(c.sitesIn(f, pm+":Transition.emitExitEvents")), pm + ":Transition.emitExitEvents"},
+		{"emitEnterEvents", asInstrs(c.sitesIn(f, pm+":Transition.emitEnterEvents")), pm + ":Transition.emitEnterEvents"},
+		{"emitSelfEvents", asInstrs(c.sitesIn(f, pm+":Transition.emitSelfEvents")), pm + ":Transition.emitSelfEvents"},
+		{"emitStateStateEvents", asInstrs(c.sitesIn(f, pm+":Transition.emitStateStateEvents")), pm + ":Transition.emitStateStateEvents"},
+		{"AnyEnter", c.emitHandlerSites(f, false), pm + ":Transition.emitHandler"},
+		{"setActiveStates", asInstrs(c.sitesIn(f, funcKey(a.setActive))), funcKey(a.setActive)},
+		{"ProcessStateCtx", asInstrs(c.sitesIn(f, pm+":Subscriptions.ProcessStateCtx")), pm + ":Subscriptions.ProcessStateCtx"},
+		{"TransitionFinals", asInstrs(c.sitesIn(f, "iface:Tracer.TransitionFinals")), "iface:Tracer.TransitionFinals"},
+		{"emitFinalEvents", asInstrs(c.sitesIn(f, funcKey(a.emitFinal))), funcKey(a.emitFinal)},
+		{"AnyState", c.emitHandlerSites(f, true), pm + ":Transition.emitHandler"},
+		{"TransitionEnd", asInstrs(c.sitesIn(f, "iface:Tracer.TransitionEnd")), "iface:Tracer.TransitionEnd"},
 	}
 	c.orderChain("C05.order", f, steps)
 	for _, st := range steps[1:6] {
@@ -162,42 +184,63 @@ func (c *Ctx) rulesC05(a *coreAnchors) {
 		}
 	}
 	if ef := a.emitFinal; ef != nil && fExits != nil && fEnters != nil {
-		// slices.Concat(t.Exits, t.Enters): variadic slice elements 0 and 1
-		good := false
+		// recognised idioms for "Exits then Enters":
+		//   slices.Concat(t.Exits, t.Enters)
+		//   append(<copy of t.Exits>, t.Enters...)
+		verdict := "" // "good" | "bad" | ""
 		for _, s := range c.sitesIn(ef, "method:Concat") {
 			args := s.Common().Args
 			if len(args) != 1 {
 				continue
 			}
-			sl, ok := args[0].(*ssa.Slice)
-			if !ok {
-				continue
+			var elems []*types.Var
+			for _, el := range variadicElems(args[0]) {
+				elems = append(elems, loadOfField(el))
 			}
-			al, ok := sl.X.(*ssa.Alloc)
-			if !ok {
-				continue
-			}
-			elems := map[int64]*types.Var{}
-			for _, r := range *al.Referrers() {
-				ia, ok := r.(*ssa.IndexAddr)
-				if !ok {
-					continue
-				}
-				idx, ok := constInt(ia.Index)
-				if !ok {
-					continue
-				}
-				for _, rr := range *ia.Referrers() {
-					if st, ok := rr.(*ssa.Store); ok {
-						elems[idx] = loadOfField(st.Val)
-					}
-				}
-			}
-			if elems[0] == fExits && elems[1] == fEnters && len(elems) == 2 {
-				good = true
+			if len(elems) == 2 && elems[0] == fExits && elems[1] == fEnters {
+				verdict = "good"
+			} else if len(elems) == 2 && elems[0] == fEnters && elems[1] == fExits {
+				verdict = "bad"
 			}
 		}
-		c.check(good, "C05.sort", "emitFinalEvents walks Exits then Enters", ef.Pos(), "final handlers must run End handlers (Exits) before State handlers (Enters): slices.Concat(t.Exits, t.Enters)")
+		for _, b := range ef.Blocks {
+			for _, ins := range b.Instrs {
+				call, ok := ins.(*ssa.Call)
+				if !ok {
+					continue
+				}
+				if bi, ok := call.Call.Value.(*ssa.Builtin); !ok || bi.Name() != "append" || len(call.Call.Args) != 2 {
+					continue
+				}
+				first := derives(call.Call.Args[0], func(x ssa.Value) bool { return loadOfField(x) != nil })
+				_ = first
+				base := func(v ssa.Value) *types.Var {
+					var out *types.Var
+					derives(v, func(x ssa.Value) bool {
+						if fl := loadOfField(x); fl == fExits || fl == fEnters {
+							out = fl
+							return true
+						}
+						return false
+					})
+					return out
+				}
+				b0, b1 := base(call.Call.Args[0]), loadOfField(call.Call.Args[1])
+				if b0 == fExits && b1 == fEnters && verdict == "" {
+					verdict = "good"
+				} else if b0 == fEnters && b1 == fExits {
+					verdict = "bad"
+				}
+			}
+		}
+		switch verdict {
+		case "good":
+			c.ok("C05.sort", "emitFinalEvents walks Exits then Enters", ef.Pos(), "End handlers (Exits) precede State handlers (Enters)")
+		case "bad":
+			c.fail("C05.sort", "emitFinalEvents walks Exits then Enters", ef.Pos(), "final handlers must run End handlers (Exits) before State handlers (Enters): the list is built Enters-first")
+		default:
+			c.undecided("C05.sort: the construction of the final-handler list in emitFinalEvents is not one of the recognised idioms (Concat(Exits, Enters) / append(copy(Exits), Enters...))")
+		}
 	}
 	c.floor("C05.sort", 4)
 
@@ -642,7 +685,7 @@ func (c *Ctx) rulesC14(a *coreAnchors, la *LockAnalysis) {
 			}
 			for _, s := range c.sitesIn(f, "iface:Tracer."+m) {
 				n++
-				c.check(f == want[m], "C14.site", fmt.Sprintf("%s called from %s", m, funcKey(f)), s.Pos(), "tracer callback must be issued from "+funcKey(want[m]))
+				c.check(c.hostedBy(f, want[m]), "C14.site", fmt.Sprintf("%s called from %s", m, funcKey(f)), s.Pos(), "tracer callback must be issued from "+funcKey(want[m])+" (directly or through a private helper that only it calls)")
 				if la != nil {
 					good := len(la.heldAt(s)) > 0
 					owned := len(la.heldAt(s)) > 0
@@ -1075,4 +1118,50 @@ func (c *Ctx) rulesC05x(a *coreAnchors) {
 		c.check(after, "C05.reenter", "Exits/Enters are recomputed after the re-resolved target is stored"+nth(i), s.Pos(), "setupExitEnter reads t.TargetStates(): called before cacheTargetStates.Store it rebuilds Enters/Exits from the stale target (final handlers run for states that were not activated)")
 	}
 	c.floor("C05.reenter", 1)
+}
+
+// effectiveHost: a private function/method that is called from exactly one
+// site (and never used as a value) is attributed to its caller, recursively:
+// extracting a loop into such a helper does not change who issues the call.
+func (c *Ctx) effectiveHost(f *ssa.Function) *ssa.Function {
+	for d := 0; d < 4; d++ {
+		if f.Parent() != nil || f.Object() == nil || f.Object().Exported() {
+			return f
+		}
+		sites, vals := c.allCallersOf(f)
+		if len(sites) != 1 || len(vals) != 0 {
+			return f
+		}
+		if _, isGo := sites[0].Instr.(*ssa.Go); isGo {
+			return f
+		}
+		f = topFunc(sites[0].Fn)
+	}
+	return f
+}
+
+// hostedBy: f is want, or a chain of single-caller private helpers leads from
+// want to f.
+func (c *Ctx) hostedBy(f, want *ssa.Function) bool {
+	for d := 0; d < 4; d++ {
+		if f == want {
+			return true
+		}
+		if f.Parent() != nil {
+			f = f.Parent()
+			continue
+		}
+		if f.Object() == nil || f.Object().Exported() {
+			return false
+		}
+		sites, vals := c.allCallersOf(f)
+		if len(sites) != 1 || len(vals) != 0 {
+			return false
+		}
+		if _, isGo := sites[0].Instr.(*ssa.Go); isGo {
+			return false
+		}
+		f = sites[0].Fn
+	}
+	return f == want
 }
